@@ -344,6 +344,32 @@ func Follow(c *Ctx) error {
 			followCase{Tree: model.Tree{ln("current", "etc/conf:prod"), dr("etc"), fl("etc/conf:prod"), ln("abs", "/etc/conf:prod")}, Reqs: []string{"current", "abs"}},
 			followCase{Tree: model.Tree{ln("la", "ta"), ln("lb", "tb"), dr("ta"), fl("ta/f"), dr("tb"), fl("tb/f")}, Reqs: []string{"l[ab]/f"}},
 		)
+		// long chains (well below the kernel's limit of 40 nested lookups): every link and the final location are wanted
+		for _, n := range []int{9, 12, 20} {
+			var t model.Tree
+			for k := 0; k < n; k++ {
+				to := fmt.Sprintf("c%02d", k+1)
+				if k == n-1 {
+					to = "end/file"
+				} else if k%3 == 1 {
+					to = "/" + to
+				}
+				t = append(t, ln(fmt.Sprintf("c%02d", k), to))
+			}
+			t = append(t, dr("end"), fl("end/file"))
+			fixed = append(fixed, followCase{Tree: t, Reqs: []string{"c00"}})
+			// the same chain reached through an intermediate component: d -> c00 (a chain that ends in a directory)
+			var t2 model.Tree
+			for k := 0; k < n; k++ {
+				to := fmt.Sprintf("c%02d", k+1)
+				if k == n-1 {
+					to = "end"
+				}
+				t2 = append(t2, ln(fmt.Sprintf("c%02d", k), to))
+			}
+			t2 = append(t2, dr("end"), fl("end/file"))
+			fixed = append(fixed, followCase{Tree: t2, Reqs: []string{"c00/file"}})
+		}
 		for i := range fixed {
 			fixed[i].Tree.Sort()
 		}
